@@ -137,7 +137,7 @@ def make_unit(name, struct, src, impl_path, split_span='for line in comment', sp
         Item('write_comments', src, path('write_comments'), cs, wrap=w),
     ]
     u = Unit(
-        name=name, props=['C15', 'C07'], pre_verus=PRE_VERUS, spec_files=['txt.rs', 'commented.rs'], prelude=prelude, items=items,
+        name=name, props=['C15', 'C07'], pre_verus=PRE_VERUS, spec_files=['txt.rs', 'seqjoin.rs', 'commented.rs'], prelude=prelude, items=items,
         functions=([] if free_fns else []) + ['%swrite_comment' % ('' if free_fns else struct + '::'), '%swrite_comments' % ('' if free_fns else struct + '::')],
         trusted=[
             'T14: the writeln! site is verified through the contract generated from its literal; the marker is the literal\'s own text (ghost '
